@@ -128,6 +128,10 @@ UNSAFE_CTOR_PROBES = {
     "Reference::from_ptr": PRELUDE + "fn main() { let mut x = 5i32; let r = Reference::from_ptr(&mut x as *mut i32); std::hint::black_box(*r.borrow()); }\n",
     "Reference::from_ptr_rw_lock": PRELUDE + "fn main() { let x = std::sync::RwLock::new(5i32); let r = Reference::from_ptr_rw_lock(&x as *const _); std::hint::black_box(*r.borrow()); }\n",
     "Reference::from_ptr_mutex": PRELUDE + "fn main() { let x = std::sync::Mutex::new(5i32); let r = Reference::from_ptr_mutex(&x as *const _); std::hint::black_box(*r.borrow()); }\n",
+    # an exported macro must not evaluate its caller's expression inside an `unsafe` block of its own: that would let a program without
+    # any `unsafe` token call an unsafe constructor
+    "unsafe fn inside a to_dyn! argument": PRELUDE + "trait Tr { fn g(&self) -> i32; }\nimpl Tr for i32 { fn g(&self) -> i32 { *self } }\n"
+        "fn main() { let mut x = 5i32; let r = rrtk::to_dyn!(Tr, Reference::from_ptr(&mut x as *mut i32)); std::hint::black_box(r.borrow().g()); }\n",
 }
 LIFETIME_ERR = re.compile(r"E0597|E0505|E0515|E0716|E0521|does not live long enough|borrowed value")
 
